@@ -1038,14 +1038,15 @@ class ASTConverter:
         self.class_and_function_stack.append("F")
         body = self.as_required_block(n.body, can_strip=True, is_coroutine=is_coroutine)
         func_def = FuncDef(n.name, args, body, func_type, explicit_type_params)
-        if isinstance(func_def.type, CallableType):
-            # semanal.py does some in-place modifications we want to avoid
-            func_def.unanalyzed_type = func_def.type.copy_modified()
-        if is_coroutine:
-            func_def.is_coroutine = True
         if func_type is not None:
             func_type.definition = func_def
             func_type.set_line(lineno)
+        if isinstance(func_def.type, CallableType):
+            # semanal.py does some in-place modifications we want to avoid
+            # (the copy keeps .definition: aststrip restores node.type from it)
+            func_def.unanalyzed_type = func_def.type.copy_modified()
+        if is_coroutine:
+            func_def.is_coroutine = True
 
         if n.decorator_list:
             var = Var(func_def.name)
